@@ -6,7 +6,7 @@ from .defs import variant, field, enum, STYLES, ALIASES
 
 IDENTS = ["Red", "Green", "BlueGreen", "HTTPServer", "Ab12Cd", "V2", "Xml2Json", "A", "Ab", "Yellow", "Purple",
           "DarkBlue", "X1", "IOError", "MyVariant", "Kelvin", "Ks", "Sharp", "Foo_Bar", "snake_id", "SHOUT", "Option2",
-          "Zz", "Query", "Item9", "TLS13", "K", "Err", "Error", "None", "Some", "Ok", "Output", "type", "fn", "match"]
+          "Zz", "Query", "Item9", "TLS13", "K", "Err", "Error", "None", "Some", "Ok", "Output", "type", "fn", "match", "\u00c9clair", "red", "rgbValue"]
 LITS = ["blue", "b", "Blue", "BLUE", "light-blue", "Light Blue", "r", "red", "RED", "gReEn", "y", "yellow", "ks", "Ks", "k",
         "K", "1a", "2", "", " x", "a b", "été", "ÉTÉ", "straße", "K", "ſ", "İx", "i̇",
         "dotlessı", "semi;colon", "quo\"te", "back\\slash", "tab\there", "new\nline", "\U0001F600", "x_y", "X-Y",
